@@ -62,7 +62,8 @@ EXTRA = [[CR, LF], [SP, CR, LF], [CR], [X], [SP, X], [LF, CR, LF]]
 SMALL = [[], [], [SP], [LF], [TAB], [FF], [SP, LF], [SP, SP], [CR, LF]]
 
 
-# ---- a mirror of coq/Trim.v spec_tokens, only to label the cases (streams, K3 shape); the verdicts come from Coq ----
+# ---- a mirror of coq/Trim.v spec_tokens, only to label the cases (stream statistics; "k3" = the shape of the repaired
+# defect K3: a violated left mode WsNone/WsSpaces under a right trim); the verdicts come from Coq ----
 
 def normalize(d):
     out, i = [], 0
@@ -246,18 +247,13 @@ def nontrivial(case, obs, meta):
     return bool(meta.get("nontrivial"))
 
 
-def classify_known(case, meta, finding):
-    # K3: the first token that cannot be accepted has a violated left mode WsNone/WsSpaces under a right trim
-    return finding["id"] == "K3" and bool(meta.get("k3"))
-
-
 def distribution(cases, obs):
     d = {}
     for (c, m), o in zip(cases, obs):
         k = "outcome_" + str(m.get("outcome", "corpus"))
         d[k] = d.get(k, 0) + 1
         if m.get("k3"):
-            d["k3_shape"] = d.get("k3_shape", 0) + 1
+            d["former_k3_shape"] = d.get("former_k3_shape", 0) + 1
         parts = o.split('(OT "Top" ')
         if len(parts) > 1 and parts[1].startswith('[(OT "Node"'):
             d["sentence_accepted"] = d.get("sentence_accepted", 0) + 1
@@ -273,15 +269,14 @@ MANIFEST = {
              'tab, LF, FF} and the mode table with the three error positions), C10_skip_ws_reader (the engine model\'s skip_ws = '
              'the C09 Reader model), C10_lefttrim_spec / C10_righttrim_spec (accept/reject tables for a rune), C10_lefttrim_table / '
              'C10_righttrim_table_node / C10_righttrim_table_err (any operand), C10_lefttrim_word (an operand failing behind its '
-             'start: the whitespace error wins), C10_tokens_code (Parse(Sentence(SeqOf tokens)) = code_parse for EVERY token list '
-             'and input), C10_tokens_spec_partial (= the property\'s spec_parse when no token has the K3 shape), '
-             'C10_tokens_spec_refuted (K3 witness), C10_transparent / C10_transparent_top (accepted tokens stand at their own '
+             'start: the whitespace error wins), C10_tokens_spec / C10_tokens_code (Parse(Sentence(SeqOf tokens)) = the property\'s '
+             'spec_parse for EVERY token list and input), C10_transparent / C10_transparent_top (accepted tokens stand at their own '
              'runes; two whitespace variants give the same token list, starts shifted by the inserted lengths), '
              'C10_trim_any_whitespace (Trim tokens accept every whitespace string in every gap), C10_ws_error_wins. The check runs '
              'token sequences x mode assignments x gap strings through the real parsley.Parse and requires model = '
              'implementation and specification = implementation.'),
     'note': ('Trusted: Coq kernel + vm_compute; the hand-written engine model (validated by this differential run); FileSet.v '
-             'for line:column rendering; Go driver; ASCII runes; offsets >= 1. Known finding K3: RightTrim relocates the '
-             'whitespace error of an inner LeftTrim (WsNone/WsSpaces) to the end of the run.'),
+             'for line:column rendering; Go driver; ASCII runes; offsets >= 1. Repaired defect K3 (RightTrim relocated '
+             'the whitespace error of an inner LeftTrim to the end of the run) is kept as a regression case.'),
     'ref': 'DESIGN.md section 6, C10; notes/C10.md',
 }
